@@ -104,6 +104,9 @@ class _Ctl:
         self.n = 0
         self.depth = 0
         self.fds: dict[int, str] = {}  # fds opened inside root -> label
+        self.action: Callable[[], Any] | None = None  # mode "act": run once, ungated, right before the k-th counted call
+        self.acted = False
+        self.other: Any = None
 
 
 def _gate(C: _Ctl, name: str, arg: str, real: Callable[[], Any], soft: bool = False) -> Any:
@@ -113,6 +116,15 @@ def _gate(C: _Ctl, name: str, arg: str, real: Callable[[], Any], soft: bool = Fa
     C.n += 1
     C.calls.append([idx, name, arg])
     hit = idx in C.ks
+    if hit and C.mode == "act" and not C.acted and C.action is not None:
+        C.acted = True
+        C.depth += 1  # the other actor's own file operations are not counted and not faulted
+        try:
+            C.other = C.action()
+        except BaseException as e:  # noqa: BLE001
+            C.other = {"status": "raised", "exception": f"{type(e).__name__}: {e}"}
+        finally:
+            C.depth -= 1
     if hit and C.mode == "kill" and C.when == "before":
         os._exit(137)
     if hit and C.mode == "fail":
@@ -262,10 +274,53 @@ def _resolve(scn: dict, target: str) -> Callable[[], Any]:
     return lambda: f(target, **call)
 
 
+def _other_action(other: dict, target: str) -> Callable[[], Any]:
+    """what a second actor does to the same path, as one uninterrupted step:
+       {"kind": "write_tool", "call": {...}} | {"kind": "atomic", "call": {...}} | {"kind": "external", "text": str} | {"kind": "delete"}"""
+    kind = other.get("kind")
+    if kind == "write_tool":
+        import asyncio
+        from octave_mcp.mcp.write import WriteTool
+
+        call = dict(other["call"])
+
+        def second_writer():
+            # the call under test may itself be inside asyncio.run: give the second writer its own thread + loop
+            import concurrent.futures
+
+            with concurrent.futures.ThreadPoolExecutor(1) as ex:
+                return ex.submit(lambda: asyncio.run(WriteTool().execute(target_path=target, **call))).result()
+
+        return second_writer
+    if kind == "atomic":
+        from octave_mcp.core.file_ops import atomic_write_octave
+
+        call = dict(other["call"])
+        return lambda: atomic_write_octave(target, **call)
+    if kind == "external":
+        text = other["text"]
+
+        def ext():
+            with open(target, "w", encoding="utf-8", newline="") as f:
+                f.write(text)
+            return {"status": "external"}
+
+        return ext
+    if kind == "delete":
+        def rm():
+            os.unlink(target)
+            return {"status": "deleted"}
+
+        return rm
+    return lambda: None
+
+
 def _child(scn: dict, root: str, C: _Ctl, wfd: int) -> None:
     out: dict[str, Any] = {"envelope": None, "exception": None, "harness_error": None}
     try:
         thunk = _resolve(scn, os.path.join(root, scn["target"]))
+        if C.mode == "act":
+            C.action = _other_action(scn.get("other") or {}, os.path.join(root, scn["target"]))
         _install(C)
         try:
             out["envelope"] = thunk()
@@ -274,6 +329,7 @@ def _child(scn: dict, root: str, C: _Ctl, wfd: int) -> None:
     except BaseException:
         out["harness_error"] = traceback.format_exc()
     out["calls"], out["injected"] = C.calls, C.injected
+    out["other"] = C.other
     os.write(wfd, json.dumps(out, default=repr).encode("utf-8"))
 
 
@@ -349,6 +405,14 @@ def run_fault(scn: dict, k: int, errno_name: str, k2: int | None = None) -> dict
     """k-th (and, if reached, k2-th) counted call fails with errno_name; same keys as run_trace + "injected"."""
     assert errno_name in ERRNOS and (k2 is None or k2 > k)
     return _run(scn, "fail", (k, k2), errno_name)
+
+
+def run_act(scn: dict, k: int, other: dict) -> dict:
+    """a second actor (scn-independent description `other`) performs its whole operation right before the k-th
+    counted call of the call under test; same keys as run_trace + "other" (the second actor's result)."""
+    scn2 = dict(scn)
+    scn2["other"] = other
+    return _run(scn2, "act", (k,))
 
 
 def run_kill(scn: dict, k: int, when: str) -> dict:
